@@ -135,7 +135,7 @@ func proveLemmas(w *World, names []string) []*Obligation {
 			specs = w.specFuncSMT(e.used)
 			var b strings.Builder
 			b.WriteString("(set-option :produce-models true)\n(set-logic ALL)\n" + preamble + specs)
-			b.WriteString("(declare-const strk (Array Int Int))\n(declare-const maxlen Int)\n(assert (= maxlen 2305843009213693952))\n(declare-const maxcap Int)\n(assert (= maxcap 4611686018427387904))\n")
+			b.WriteString("(declare-const strk (Array Int Int))\n(declare-const maxlen Int)\n(assert (= maxlen 2305843009213693952))\n(declare-const maxcap Int)\n(assert (= maxcap 9223372036854775807))\n")
 			b.WriteString(strings.Join(decls, "\n") + "\n")
 			for _, f := range facts {
 				if f != "true" {
